@@ -102,6 +102,39 @@ def e_bkg_estimators(inp):
     return out
 
 
+def e_stats_large(inp):
+    """the same statistics on many pixels with a large pedestal (where the precision of the accumulator matters)"""
+    import photutils.background as B
+    from photutils.segmentation import detect_threshold
+    d = inp['data']
+    unit = getattr(d, 'unit', None)
+    a = np.asarray(_strip(d))
+    big = np.tile(a, (22, 18))
+    big = big + np.asarray(3000, dtype=big.dtype)
+    if isinstance(d, np.ma.MaskedArray):
+        big = np.ma.MaskedArray(big)
+    if unit is not None:
+        big = big * unit
+    out = [B.MeanBackground()(big), B.StdBackgroundRMS()(big), B.MedianBackground()(big), B.MADStdBackgroundRMS()(big),
+           B.MeanBackground(sigma_clip=None)(big), B.StdBackgroundRMS(sigma_clip=None)(big)]
+    out.append(detect_threshold(big, 2.0)[0, 0])
+    if np.asarray(_strip(big)).dtype.kind in 'iu':      # integer input: documented integer-rounded maps (covered by the background2d entry)
+        big = big.astype(float)
+    b = B.Background2D(big, (330, 324), filter_size=1, bkg_estimator=B.MeanBackground(), exclude_percentile=60.0)
+    out += [b.background_mesh, b.background_rms_mesh]
+    return out
+
+
+def e_aperture_mask_edge(inp):
+    from photutils.aperture import CircularAnnulus, CircularAperture, RectangularAperture
+    out = []
+    for ap in (CircularAperture((0.5, 12.0), 3.0), RectangularAperture((35.0, 29.0), 5.0, 3.0, theta=0.3), CircularAnnulus((20.0, 0.0), 2.0, 4.0)):
+        for method in ('center', 'exact'):
+            m = ap.to_mask(method=method)
+            out += [m.cutout(inp['data']), m.cutout(inp['data'], fill_value=7.0, copy=True), m.multiply(inp['data'])]
+    return out
+
+
 def e_detect_threshold(inp):
     from photutils.segmentation import detect_threshold
     return [detect_threshold(inp['data'], 2.0, background=inp.get('bkg'), error=inp.get('error'), mask=inp.get('mask')),
@@ -355,6 +388,8 @@ ENTRIES = {
     'aperture_photometry': dict(f=e_aperture_photometry, uses=['data', 'error', 'mask']),
     'do_photometry': dict(f=e_do_photometry, uses=['data', 'error', 'mask']),
     'aperture_mask': dict(f=e_aperture_mask, uses=['data', 'mask']),
+    'aperture_mask_edge': dict(f=e_aperture_mask_edge, uses=['data']),
+    'stats_large': dict(f=e_stats_large, uses=['data']),
     'aperture_stats': dict(f=e_aperture_stats, uses=['data', 'error', 'mask']),
     'background2d': dict(f=e_background2d, uses=['data', 'mask']),
     'local_background': dict(f=e_local_background, uses=['data', 'mask']),
